@@ -6,6 +6,7 @@ import (
 	"fmt"
 	"os"
 	"strconv"
+	"strings"
 	"sync"
 )
 
@@ -21,13 +22,33 @@ func coldMain(args []string) {
 	for i := range seed {
 		seed[i] = byte(3*i + 1)
 	}
-	script := []string{
-		"m.dec48 " + hx([]byte("aback abbey")),
-		"m.enc " + hx(seed),
-		"d.new 10 2 0 0", "d.frombytes 120500", "x.wparams 16",
-		fmt.Sprintf("x.new k %s 4 1 0", hx(seed)), "x.sign k 00", "x.info k",
-		fmt.Sprintf("dl.new d %s", hx(seed)), "dl.sign d 0102",
-		"a.xmssvalid " + hx(seed[:20]), "js.xvalid " + hx([]byte("0x0102"+"000000000000000000000000000000000000")),
+	scriptFor := func(t int) []string {
+		ds := append([]byte{}, seed...)
+		ds[0] = byte(t % 4) // four different Dilithium keys in flight at once
+		return []string{
+			"m.dec48 " + hx([]byte("aback abbey")),
+			"m.enc " + hx(seed),
+			"d.new 10 2 0 0", "d.frombytes 120500", "x.wparams 16",
+			fmt.Sprintf("x.new k %s 4 %d 0", hx(seed), t%3), "x.sign k 00", "x.info k",
+			fmt.Sprintf("dl.new d %s", hx(ds)), "dl.sign d 0102", "dl.sign d " + hx(seed[:7]),
+			"a.xmssvalid " + hx(seed[:20]), "js.xvalid " + hx([]byte("0x0102"+"000000000000000000000000000000000000")),
+		}
+	}
+	run := func(t int) string {
+		st := newState()
+		h := sha256.New()
+		for _, l := range scriptFor(t) {
+			out := execOp(st, l)
+			if strings.HasPrefix(l, "dl.sign") {
+				// the signature just produced must verify (stateless verifier, the key's matrix is re-expanded)
+				if sig, ok := okval(out); ok {
+					pk := st.dkeys["d"].GetPK()
+					out += " " + execOp(st, fmt.Sprintf("dl.verify %s %s %s", strings.Fields(l)[2], sig, hx(pk[:])))
+				}
+			}
+			h.Write([]byte(out + "\n"))
+		}
+		return hex.EncodeToString(h.Sum(nil))
 	}
 	digests := make([]string, n)
 	var wg sync.WaitGroup
@@ -37,26 +58,20 @@ func coldMain(args []string) {
 		go func(t int) {
 			defer wg.Done()
 			<-start
-			st := newState()
-			h := sha256.New()
-			for _, l := range script {
-				out := execOp(st, l)
-				if l[:6] == "x.info" {
-					// verify the signature produced above through the stateless verifier as well
-					out += execOp(st, "x.wparams 4")
-				}
-				h.Write([]byte(out + "\n"))
-			}
-			digests[t] = hex.EncodeToString(h.Sum(nil))
+			digests[t] = run(t)
 		}(t)
 	}
 	close(start)
 	wg.Wait()
-	for t := 1; t < n; t++ {
-		if digests[t] != digests[0] {
-			fmt.Printf("cold MISMATCH goroutine %d: %s vs %s\n", t, digests[t], digests[0])
+	// afterwards, one at a time: the results every goroutine should have obtained
+	all := sha256.New()
+	for t := 0; t < n; t++ {
+		want := run(t)
+		if digests[t] != want {
+			fmt.Printf("cold MISMATCH goroutine %d: concurrent %s vs alone %s\n", t, digests[t], want)
 			os.Exit(0)
 		}
+		all.Write([]byte(want))
 	}
-	fmt.Println("cold ok " + digests[0])
+	fmt.Println("cold ok " + hex.EncodeToString(all.Sum(nil)))
 }
